@@ -92,7 +92,11 @@ def serialize_date(dt):
     if isinstance(dt, timedelta):
         dt = _now() + dt
 
-    if isinstance(dt, (datetime, date)):
+    if isinstance(dt, datetime):
+        # an aware datetime names an instant: convert it to UTC (a naive
+        # one is taken to be UTC already)
+        dt = dt.utctimetuple()
+    elif isinstance(dt, date):
         dt = dt.timetuple()
 
     if isinstance(dt, (tuple, time.struct_time)):
